@@ -17,6 +17,35 @@ CHECKS = {
             "required to occur, and a sys.monitoring line probe reports which arm each case executed.",
             "Held on the generated inputs only; integer categories; N=0 without common/mapping is refused by contract and not generated.",
             "DESIGN.md section 2 C01"),
+    "C02": ("exploration",
+            "differential monitor: brute-force dense group-by over the dense twins vs the real count cube, integer exact",
+            "Thousands (quick) to 1.5*10^5 (thorough) cubes of 0-4 constructor-built index dimensions (1-3 axes, any common "
+            "incl. absent and = extent, padded/inferred shapes, boundary extents) are counted by the real ccube and compared "
+            "cell by cell (value and missing flag, both report formats) with a contingency table computed from the dense "
+            "arrays; cells are tallied by how many coordinates are a common category (visited vs reconstructed).",
+            "Sampled inputs; category codes 0..extent-1.",
+            "DESIGN.md section 2 C02"),
+    "C03": ("exploration",
+            "triangular differential monitor: ccube and two xcubes (unsigned-from-index, other integer dtype) each vs a direct per-cell computation",
+            "For every generated input (cube x fact form x weight form x policy x dtype class x explicit/inferred shape) the "
+            "four shared aggregates of the index cube and of two array cubes are compared with a direct per-cell computation "
+            "over the dense rows: missing sets exactly, values within 1e-9 of the grand total.",
+            "Sampled inputs; weights >= 0 and never tiny-positive.",
+            "DESIGN.md section 2 C03"),
+    "C04": ("exploration",
+            "reference rule monitor: the stated missing-cell rule evaluated per cell; three report formats cross-compared",
+            "Each aggregate of both cube types is evaluated under NaN, (sentinel, False) for several sentinels and plain 0; "
+            "each result is compared with the rule (no rows / all or any missing / zero weight sum for means) evaluated on "
+            "the cell's rows, sentinels as cast to the result dtype, and the formats with each other.",
+            "The documented valid_count/plain-value/propagation shortcut is excluded as the property states.",
+            "DESIGN.md section 2 C04"),
+    "C05": ("exploration",
+            "metamorphic monitor: every re-encoding of the common value vs the original encoding's outputs",
+            "Each dimension of each cube is re-expressed with every value 0..extent as common (one at a time in quick; all "
+            "prod(extent+1) combinations for small cubes in thorough), optionally re-normalised, and the four aggregates "
+            "must not change (missing exact, values within rounding).",
+            "Uses the library's shift_common to re-encode (its dense result is checked first).",
+            "DESIGN.md section 2 C05"),
     "C06": ("exploration",
             "history + executable model: NumPy model carried beside every live index through seeded operation histories",
             "Seeded histories of 1-15 operations over a pool of live indexes; after every step the receiver and every "
@@ -74,6 +103,19 @@ CHECKS = {
             "file sizes and loads what is on disk.",
             "Crash model = byte prefix (checked by the write trace); files are small so that all cut points can be enumerated.",
             "DESIGN.md section 2 C12"),
+    "C13": ("exploration",
+            "block-vs-subcube monitor: each extra-axis block of the result vs the same aggregate over harness-made 1-D slices",
+            "Cubes with 2- and 3-axis dimensions of pairwise different extra extents: result shape must be extra extents "
+            "(dimension order, axis order) + category extents (+ fact columns) and every block must equal the cube over the "
+            "1-D slices built by the harness (and over the library's sliced()), for both cube types and all ten aggregates.",
+            "The block oracle is the same library's 1-D cube (itself judged by C02/C03/C18).",
+            "DESIGN.md section 2 C13"),
+    "C14": ("exploration",
+            "offline event-log checker: callback log of walk/interactions vs the expected multiset (exactly-once, complete, no extra)",
+            "The (coordinates, row ids) pairs delivered to callbacks are recorded and compared as a multiset with the set "
+            "computed from the dense twins; common coordinates, duplicates, unsorted row ids and disagreeing callbacks are reported.",
+            "Delivery order is not judged.",
+            "DESIGN.md section 2 C14"),
     "C15": ("exploration",
             "history + model: value counts on the NumPy model; equality against constructor-built twins and perturbed twins",
             "The C06 history engine with two oracles: after every library-chosen normalisation count(common) must be the "
@@ -81,6 +123,22 @@ CHECKS = {
             "constructor-built twin, with twins perturbed in one cell / shape / common, and with non-index objects.",
             "Sampled histories; ill-formed or model-divergent objects end their history (blame C07/C06).",
             "DESIGN.md section 2 C15"),
+    "C17": ("exploration",
+            "byte-snapshot monitor of every argument around every entry point + result comparison across repeated/permuted/reused calls",
+            "Deep snapshots (dtype, shape, bytes, dict order, index attributes) of all arguments are compared before/after "
+            "construction, calculate, the shortcut methods, walk and the non-mutating index methods; calculate(list) is "
+            "compared with each function alone, all permutations (<=4), a repeated call, and reuse of the same objects on "
+            "another cube and back.",
+            "Diagnostic counters are not compared.",
+            "DESIGN.md section 2 C17"),
+    "C18": ("exploration",
+            "reference-model monitor: hand-written textbook statistics per cell vs the array cube",
+            "stddev (ddof=1 / reliability weights x n/(n-1)), quantile (numpy.quantile; weighted: missing rule, scale "
+            "invariance, range), min/max (float/int/datetime), covariance (optionally weighted) and correlation are compared "
+            "cell by cell with two-pass textbook formulas over the cell's rows; NaN and (values, validity) formats compared.",
+            "Undefined entries (zero variance, < 2 rows) are not compared; scalar weights for stddev/covariance and weights "
+            "for corrcoef are outside the quantifier.",
+            "DESIGN.md section 2 C18"),
     "C19": ("exploration",
             "reference-model monitor (numpy.iinfo) over an exhaustive threshold partition + in-situ call monitor",
             "Every (max,min) pair of the threshold partition (all powers of two +-1, both signs, one- and two-argument "
